@@ -36,11 +36,15 @@ def moment(rule, k, alpha=0.0, beta_=0.0):
     if rule.startswith("gauss-gegenbauer"):
         return beta((k + 1) / 2.0, alpha + 1.0) if k % 2 == 0 else 0.0
     if rule.startswith("gauss-jacobi"):
-        # x = (1+x) - 1
-        s = 0.0
+        # x = (1+x) - 1 ; B(a+1, b+j+1) = B(a+1, b+1) * prod_{i<j} (b+1+i)/(a+b+2+i): the alternating sum is formed in exact
+        # rational arithmetic (alpha and beta are dyadic rationals), only the common factor is a floating point number
+        from fractions import Fraction
+        fa, fb = Fraction(alpha), Fraction(beta_)
+        s, ratio = Fraction(0), Fraction(1)
         for j in range(k + 1):
-            s += comb(k, j) * (-1.0) ** (k - j) * 2.0 ** (alpha + beta_ + j + 1) * beta(alpha + 1.0, beta_ + j + 1.0)
-        return s
+            s += comb(k, j) * (-1) ** (k - j) * 2 ** j * ratio
+            ratio *= (fb + 1 + j) / (fa + fb + 2 + j)
+        return float(s) * 2.0 ** (alpha + beta_ + 1) * beta(alpha + 1.0, beta_ + 1.0)
     if rule.startswith("gauss-laguerre"):
         return math.gamma(k + alpha + 1.0)
     if rule.startswith("gauss-hermite"):
